@@ -143,11 +143,16 @@ def run_real(mode, inp, cl, buf, max_body, schedule=None, rng=None, kind='cl', e
         ctype = rng.choice(CTYPES)       # request.body is the raw body whatever the media type says
     if ctype:
         env['CONTENT_TYPE'] = ctype
+    # servers that mark their input stream as self-terminating (PEP 3333 extension flag): Content-Length still says where
+    # THIS request's body ends
+    if (len(inp) + buf) % 3 == 0:
+        env['wsgi.input_terminated'] = True
     if mode == 'cl':
         if cl >= 0:
             env['CONTENT_LENGTH'] = str(cl)
     else:
-        env['HTTP_TRANSFER_ENCODING'] = 'chunked'
+        # transfer-coding names are case-insensitive; chunked is the last coding
+        env['HTTP_TRANSFER_ENCODING'] = ['chunked', 'chunked', 'Chunked', 'CHUNKED', 'gzip, chunked', 'identity,Chunked', 'chunked '][(len(inp) + cl + buf) % 7]
         if cl >= 0:     # a (bogus) Content-Length next to chunked framing: the framing decides
             env['CONTENT_LENGTH'] = str(cl)
     import tempfile as _tf
